@@ -34,8 +34,8 @@ theorem insertBy_perm {α : Type} (key : α → Bytes) (x : α) : ∀ (l : List 
   | y :: ys => by
     unfold insertBy
     split
-    · exact List.Perm.refl _
     · exact ((insertBy_perm key x ys).cons y).trans (List.Perm.swap x y ys)
+    · exact List.Perm.refl _
 
 theorem sortBy_perm {α : Type} (key : α → Bytes) : ∀ (l : List α), (sortBy key l).Perm l
   | [] => List.Perm.refl _
